@@ -342,12 +342,33 @@ async fn scenario(a: &ShardArgs, idx: u64) {
             let (mut sol, unsol) = cx.record(&rx);
             cx.remember(&unsol);
             if sol.is_empty() && cfg.unsolicited {
-                // deferred by an unsolicited confirm wait: wait for the series to end
+                // deferred by an unsolicited confirm wait: the master may retransmit it while it is deferred
+                let reps = r.below(3);
+                let mut early = 0usize;
+                for j in 0..reps {
+                    out::eval(1);
+                    cx.hist.push(format!("t={} repeat READ #{j} while it is deferred behind an unsolicited confirm wait", sim.now()));
+                    let rx = sim.request(&rd).await;
+                    let (es, eu) = cx.record(&rx);
+                    cx.remember(&eu);
+                    cx.remember(&es);
+                    early += es.len();
+                }
+                // ... then wait for the series to end
                 sim.advance(cfg.confirm_timeout_ms).await;
                 let rx = sim.collect();
                 let (s2, u2) = cx.record(&rx);
                 cx.remember(&u2);
                 sol = s2;
+                // however often it was retransmitted, the deferred READ is served once
+                let firsts = sol.iter().filter(|f| f[0] & ra::FIR != 0).count() + early;
+                if reps > 0 {
+                    if firsts > 1 {
+                        cx.viol("re_executed", "deferred-read-repeat", format!("a READ retransmitted {reps} time(s) while deferred was answered {firsts} times"), J::obj(vec![("responses", J::U(firsts as u64))]));
+                    } else {
+                        out::count("deferred_read_repeat_served_once", 1);
+                    }
+                }
             }
             cx.remember(&sol);
             let mut k = 1;
